@@ -15,6 +15,11 @@ func (v *VerifJobChan) Len() int {
 	return len(v.ch)
 }
 
+// Same reports whether two handles denote the same channel.
+func (v *VerifJobChan) Same(o *VerifJobChan) bool {
+	return v != nil && o != nil && v.ch != nil && v.ch == o.ch
+}
+
 // Cap is the capacity of the channel.
 func (v *VerifJobChan) Cap() int {
 	if v == nil || v.ch == nil {
